@@ -66,7 +66,7 @@ def value_xml(cx, prefixes, tag, rng, allow_lang=True):
     elif r < 0.42:
         a, text = ' xsi:type="xsd:%s"' % rng.choice(["int", "long"]), str(rng.choice([5, -3, 10 ** 25]))
     elif r < 0.5:
-        a, text = ' xsi:type="xsd:double"', rng.choice(["0.5", "1e+300", "3.0", "0.1"])
+        a, text = ' xsi:type="xsd:double"', rng.choice(["0.5", "1e+300", "3.0", "0.1", "INF", "-INF"])
     elif r < 0.58:
         a, text = ' xsi:type="xsd:boolean"', rng.choice(["true", "false", "1", "0"])
     elif r < 0.66:
